@@ -82,7 +82,7 @@ def jobs(tier, seed):
         if tier == 'quick':
             pats = pats[:3]
         for pi, pat in enumerate(pats):
-            for sort in (('int', 'real') if (tier != 'quick' or pi == 0) else ('int',)):
+            for sort in (('int', 'real') if pi < (1 if tier == 'quick' else 4) else ('int',)):
                 cfg = {'kind': kind, 'rate': 8, 'table': TABLES[kind], 'flows': pat, 'sorts': sort}
                 if kind == 'WFQ':
                     cfg['float_inexact'] = True
@@ -111,6 +111,14 @@ def jobs(tier, seed):
                    'sorts': 'int', 'incl': incl, 'nsamp': 2}
             if kind == 'WFQ':
                 cfg['float_inexact'] = True
+            if kind == 'DRR':
+                cfg['smax'] = 3200
+            js.append({'harness': 'monitor', 'cfg': cfg, 'weight': 12})
+    # Monitor on a scheduler with several flows mapped onto one class (samples stay per flow)
+    for kind in ('SP', 'WFQ', 'VC', 'DRR'):
+        for incl in (True, False):
+            cfg = {'kind': kind, 'rate': 8, 'table': {7: 1}, 'flows': [5, 6] if tier == 'quick' else [5, 6, 5], 'sorts': 'int',
+                   'flow2class': {5: 7, 6: 7}, 'incl': incl, 'nsamp': 2}
             if kind == 'DRR':
                 cfg['smax'] = 3200
             js.append({'harness': 'monitor', 'cfg': cfg, 'weight': 12})
